@@ -120,8 +120,15 @@ def dmgNote (src dst : Nat) (ups cores downs : List Seg) (cs : List Path) : Stri
   | some qs =>
     if (qs.map renderFull).mergeSort strLe = (cs.map renderFull).mergeSort strLe then ""
     else " dmg-mismatch") ++
-  -- hypothesis of `Scion.C29.getPaths_complete`, checked on every generated input
-  (if decide (NoCollision (allTuples ups cores downs)) then "" else " key-collision")
+  -- hypotheses of `Scion.C29.getPaths_complete`, checked on every generated input: no key
+  -- collision, and no join passing through the destination vertex (then the search finds exactly
+  -- the joins of the specification, before any filtering)
+  (if decide (NoCollision (allTuples ups cores downs)) then "" else " key-collision") ++
+  (match newDMG ups cores downs with
+   | some g =>
+     if (getPaths g src dst).length = (allJoins ups cores downs src dst).length then ""
+     else " join-through-dst"
+   | none => "")
 
 def weightOf (g : List String) : Nat :=
   match g with
